@@ -41,6 +41,8 @@ Effect(op) ==
       [] op = "c_boom"    -> [x |-> x, lst |-> Append(lst, 5), res |-> Err("error")]
       [] op = "c_deep"    -> [x |-> x, lst |-> lst \o <<6, 1>>, res |-> Err("error")]
       [] op \in {"c_few", "c_many", "c_native", "c_notfn"} -> [x |-> x, lst |-> lst, res |-> Err("error")]
+      \* host displays of objects whose @display cannot even be called (not a function, wrong arity) or fails when it runs
+      [] op \in {"d_notfn", "d_arity", "d_throw"} -> [x |-> x, lst |-> lst, res |-> Err("error")]
       [] op = "c_missing" -> [x |-> x, lst |-> lst, res |-> Err("missing_function")]
       [] op = "c_gen"     -> [x |-> x, lst |-> Append(lst, 8), res |-> Err("error")]
       [] op = "d_lst"     -> [x |-> x, lst |-> lst, res |-> Ok(ShowList(lst))]
